@@ -392,6 +392,9 @@ func unhx(s string) ([]byte, bool) {
 // lists keep nvals elements): the "default" state, where a stored component equals the zero of a new one.
 var fillZero bool
 
+// extraLen: when >= 0, the length fill gives every ExtraData byte list (0, 5, 32 are the interesting ones)
+var extraLen = -1
+
 func fill(rng *rand.Rand, v reflect.Value, nvals int) {
 	if fillZero {
 		rng = rand.New(zeroSource{})
@@ -467,8 +470,15 @@ func fill(rng *rand.Rand, v reflect.Value, nvals int) {
 				b[n/8] &= byte(1<<uint(n%8)) - 1
 				b[n/8] |= 1 << uint(n%8)
 			case "ExtraData":
-				b = make([]byte, rng.Intn(33))
+				n := rng.Intn(33)
+				if extraLen >= 0 {
+					n = extraLen
+				}
+				b = make([]byte, n)
 				rng.Read(b)
+				for i := range b { // never all-zero, so that an overwrite by another value shows
+					b[i] |= 1
+				}
 			default:
 				b = make([]byte, rng.Intn(40))
 				rng.Read(b)
@@ -689,8 +699,10 @@ func gen(o hreg.Opts, w *bufio.Writer) error {
 			nvals := 1 + rng.Intn(5)
 			sp := d.newStruct()
 			fillZero = r%2 == 1 // odd rounds start from the default (all-zero) value
+			extraLen = []int{-1, 0, 32, 5}[r%4]
 			fill(rng, reflect.ValueOf(sp).Elem(), nvals)
 			fillZero = false
+			extraLen = -1
 			st.Add("initial-value", map[bool]string{true: "default", false: "random"}[r%2 == 1])
 			fs, err := structFields(sp)
 			if err != nil {
@@ -729,6 +741,15 @@ func gen(o hreg.Opts, w *bufio.Writer) error {
 			}
 			doGets()
 			emit("raw", "")
+			// results a caller holds on to survive later reads (on another value, and on this one)
+			for _, m := range gets {
+				emit("held", " %s %d %d", m.Name, []int{0, 5, 32, 17}[rng.Intn(4)], rng.Int63n(1<<40))
+			}
+			if _, ok := d.viewType.MethodByName("Raw"); ok {
+				for _, ln := range []int{0, 5, 32} {
+					emit("held", " Raw %d %d", ln, rng.Int63n(1<<40))
+				}
+			}
 			// writes in random order, each followed by the matching read (and a few unrelated reads)
 			perm := rng.Perm(len(sets))
 			sv := reflect.ValueOf(sp).Elem()
@@ -1286,6 +1307,89 @@ func (s *session) step(f []string) string {
 			return s.diff()
 		}
 		return "bad-op"
+	case f[0] == "held" && len(f) == 4:
+		// held M len seed: results a caller still HOLDS must not change when more reads happen. Read through M
+		// (and, if the result has one, its Raw()), snapshot the result's bytes; then read the same thing on
+		// ANOTHER value of the same type (different contents, extra_data of the given length) and once more on this
+		// one; then serialise the held first result again.
+		ln, err1 := strconv.Atoi(f[2])
+		seed, err2 := strconv.ParseInt(f[3], 10, 64)
+		if err1 != nil || err2 != nil || ln < 0 || ln > 32 {
+			return "bad-op"
+		}
+		read := func(v reflect.Value) ([]reflect.Value, bool) {
+			m := v.MethodByName(f[1])
+			if !m.IsValid() {
+				return nil, false
+			}
+			var out []reflect.Value
+			switch {
+			case m.Type().NumIn() == 0 && m.Type().NumOut() == 2:
+				out = m.Call(nil)
+			case m.Type().NumIn() == 1 && m.Type().In(0) == specT && m.Type().NumOut() == 2:
+				out = m.Call([]reflect.Value{reflect.ValueOf(spec)})
+			default:
+				return nil, false
+			}
+			if callErr(out) {
+				return nil, false
+			}
+			res := []reflect.Value{out[0]}
+			r := out[0]
+			if r.Kind() == reflect.Interface && !r.IsNil() {
+				r = r.Elem()
+			}
+			if rm := r.MethodByName("Raw"); rm.IsValid() && rm.Type().NumOut() == 2 {
+				var ro []reflect.Value
+				if rm.Type().NumIn() == 0 {
+					ro = rm.Call(nil)
+				} else if rm.Type().NumIn() == 1 && rm.Type().In(0) == specT {
+					ro = rm.Call([]reflect.Value{reflect.ValueOf(spec)})
+				}
+				if ro != nil && !callErr(ro) {
+					res = append(res, ro[0])
+				}
+			}
+			return res, true
+		}
+		first, ok := read(rv)
+		if !ok {
+			return "err"
+		}
+		var snaps [][]byte
+		for _, v := range first {
+			b, err := serAny(v)
+			if err != nil {
+				return "unserialisable"
+			}
+			snaps = append(snaps, append([]byte(nil), b...))
+		}
+		// another value of the same type
+		other := s.d.newStruct()
+		extraLen = ln
+		fill(rand.New(rand.NewSource(seed)), reflect.ValueOf(other).Elem(), 2)
+		extraLen = -1
+		intact := func() bool {
+			for i, v := range first {
+				b, err := serAny(v)
+				if err != nil || !bytes.Equal(b, snaps[i]) {
+					return false
+				}
+			}
+			return true
+		}
+		// (a read of the same value again would write the same bytes: check after each further read separately)
+		if ov, err := s.d.load(other); err == nil {
+			read(reflect.ValueOf(ov))
+			if !intact() {
+				return "ok CLOBBERED-by-read-of-another-value"
+			}
+		}
+		read(rv)
+		if !intact() {
+			return "ok CLOBBERED-by-second-read"
+		}
+		return "ok held"
 	case f[0] == "raw" && len(f) == 1:
 		fs, err := s.raw()
 		if err != nil {
